@@ -31,3 +31,18 @@ for p in sorted(glob.glob("/verif/seeded/*/meta.json")):
     first = m.get("first_evaluation") or ("missed, then strengthened" if m.get("note", "").startswith("first evaluation") else ("caught" if m.get("valid") else "n/a"))
     if not m.get("valid"): now = "not a valid breaking change on the current head (see note)"
     print(f"| {m['id']} | {m['property']} | {m.get('needs_to_manifest','')[:230]} | {first} | {now} |")
+
+# summary (to stderr): how first evaluations went
+cnt = {}
+for p in sorted(glob.glob("/verif/seeded/*/meta.json")):
+    m = json.load(open(p))
+    if not m.get("valid"):
+        k = "not valid on the current head"
+    else:
+        f = m.get("first_evaluation") or ("missed, then strengthened" if m.get("note", "").startswith("first evaluation") else "caught")
+        if f.startswith("caught"): k = "caught at first evaluation"
+        elif f.startswith("missed, then"): k = "missed, then strengthened"
+        elif f.startswith("missed, not"): k = "missed, not strengthened"
+        else: k = "outside the property it was written for; caught by the property it belongs to"
+    cnt[k] = cnt.get(k, 0) + 1
+print("SUMMARY", cnt, file=sys.stderr)
